@@ -1,8 +1,8 @@
 import Driver.Common
 import GM.Model.Render
 import GM.Spec.RenderInv
-namespace Driver
-open GM
+namespace Driver.Rend
+open GM Driver
 
 /-! Tree token format (must match harness/cmd/gmharness/dump.go):
     `<Kind> <fields…> <attrs> <children…> )` ; lists `_` or hex items joined by `,` ; optional bytes `~` = nil. -/
@@ -117,6 +117,11 @@ def parseCfg (o e : String) : Option RCfg :=
       tableAlign := if dig a == 0 then none else some (dig a) }
     some (mkRCfg opts { table := bit t, strike := bit st, task := bit k, dl := bit d, foot := bit f })
   | _, _ => none
+
+end Driver.Rend
+
+namespace Driver
+open GM Driver.Rend
 
 def handleRender : List String → String
   | "html" :: o :: e :: toks =>
